@@ -291,3 +291,9 @@ package main
 //@   call Join#1 assert [C10,C17] len($0) == 2 && $0[0] == dir && $0[1] == "*.cptv*"
 //@   call Remove#1 assert [C10,C17] len(matches) >= 1 && $0 == matches[0]
 //@   loop 1 invariant ncalls("Remove") >= 0
+
+// The configuration watcher runs beside the frame loop and shares the parsed
+// configuration with it: it may compare it, it must not write to it.
+//@ func checkConfigChanges
+//@   mode permissive
+//@   readonly [C04,C11,C12] conf
